@@ -170,6 +170,10 @@ func (h *history) op(f []string) string {
 		}
 		ans := ""
 		if l == h.root && wasOpen {
+			if !h.inWindow() { // the lock may have been taken only after the next tick
+				h.inconclusive = true
+				return "inconclusive"
+			}
 			h.rootClosed = true
 			ans = h.collect(true) // the goroutine drains the queue after the hand-over
 		}
